@@ -166,8 +166,17 @@ fn dual_params<'tcx>(tcx: TyCtxt<'tcx>, def_id: DefId) -> (Vec<(String, Vec<Stri
     let mut bounds: Vec<(String, Vec<String>)> = Vec::new();
     let mut duals = HashSet::new();
     let preds = tcx.predicates_of(root).instantiate_identity(tcx);
+    let mut projs: Vec<(String, Ty<'tcx>)> = Vec::new();
     for (clause, _) in preds.into_iter() {
         let clause = clause.skip_norm_wip();
+        if let Some(pp) = clause.as_projection_clause() {
+            let pp = pp.skip_binder();
+            if let ty::Param(p) = pp.self_ty().kind() {
+                if let Some(t) = pp.term.as_type() {
+                    projs.push((p.name.to_string(), t));
+                }
+            }
+        }
         if let Some(tp) = clause.as_trait_clause() {
             let tp = tp.skip_binder();
             let self_ty = tp.trait_ref.self_ty();
@@ -186,28 +195,55 @@ fn dual_params<'tcx>(tcx: TyCtxt<'tcx>, def_id: DefId) -> (Vec<(String, Vec<Stri
             }
         }
     }
+    // a parameter whose associated type is bound to a dual type (S: Data<Elem = D>) is dual-carrying too
+    let mut changed = true;
+    while changed {
+        changed = false;
+        for (name, t) in &projs {
+            if !duals.contains(name) && ty_mentions_dual(tcx, *t, &duals) {
+                duals.insert(name.clone());
+                changed = true;
+            }
+        }
+    }
     (bounds, duals)
 }
 
 fn ty_mentions_dual<'tcx>(tcx: TyCtxt<'tcx>, t: Ty<'tcx>, duals: &HashSet<String>) -> bool {
-    for ga in t.walk() {
-        if let Some(t) = ga.as_type() {
-            match t.kind() {
-                ty::Param(p) => {
-                    if duals.contains(p.name.as_str()) {
-                        return true;
-                    }
+    // does a *value* of this type carry dual numbers?  Closure types are not descended into: a closure that
+    // merely captures a dual value (or an iterator adaptor holding such a closure) is not itself dual data.
+    fn go<'tcx>(tcx: TyCtxt<'tcx>, t: Ty<'tcx>, duals: &HashSet<String>, depth: usize) -> bool {
+        if depth > 40 {
+            return false;
+        }
+        match t.kind() {
+            ty::Param(p) => duals.contains(p.name.as_str()),
+            ty::Adt(adt, args) => {
+                if tcx.crate_name(adt.did().krate).as_str() == "num_dual" {
+                    return true;
                 }
-                ty::Adt(adt, _) => {
-                    if tcx.crate_name(adt.did().krate).as_str() == "num_dual" {
-                        return true;
-                    }
-                }
-                _ => {}
+                args.iter().any(|ga| ga.as_type().map_or(false, |t2| go(tcx, t2, duals, depth + 1)))
             }
+            ty::Ref(_, inner, _) | ty::RawPtr(inner, _) | ty::Slice(inner) | ty::Array(inner, _) => go(tcx, *inner, duals, depth + 1),
+            ty::Tuple(l) => l.iter().any(|t2| go(tcx, t2, duals, depth + 1)),
+            ty::Closure(..) | ty::CoroutineClosure(..) | ty::Coroutine(..) | ty::FnDef(..) | ty::FnPtr(..) => false,
+            ty::Alias(..) => {
+                // projections such as <S as RawData>::Elem: dual if any generic argument is
+                for ga in t.walk() {
+                    if let Some(t2) = ga.as_type() {
+                        if let ty::Param(p) = t2.kind() {
+                            if duals.contains(p.name.as_str()) {
+                                return true;
+                            }
+                        }
+                    }
+                }
+                false
+            }
+            _ => false,
         }
     }
-    false
+    go(tcx, t, duals, 0)
 }
 
 fn ty_has_f64<'tcx>(t: Ty<'tcx>) -> bool {
